@@ -32,6 +32,10 @@ CHECKS = {
    technique="explicit-state model checking (stateright): all 1024 field subsets x every word, and x every bounded text x modes x call orders, on the real lexicon reader and tokenizer, differential against the all-fields result",
    text="Every word of a two-user-dictionary world x all 1024 subsets through LexiconSet::get_word_info_subset and through a tokenizer after set_subset: every requested field read through its public accessor equals the all-fields value (strings across the one/two-byte length prefix included). Every text within the bound x all 1024 subsets x modes A/B/C x both orders of set_mode/set_subset: surfaces partition the input; tokens equal the full analysis when no path-rewrite plugin is configured or the subset covers surface, POS and normalised form.",
    ref="DESIGN.md §3 C11"),
+ "C12": dict(
+   technique="explicit-state model checking (stateright BFS) over configuration decisions (plugin POS registrations x build route x one POS pattern per user dictionary, all orders), every state built with the real compiler/loader and compared with the declared CSV content",
+   text="Every stack of up to 3 (thorough 4) user dictionaries with every combination of POS patterns (system POS only, own new POS, POS shared between dictionaries, POS equal to a plugin-registered one), with OOV plugins registering 0/1/2 POS, built against the bare system dictionary or against the loaded dictionary with plugins as `sudachi ubuild` does, plus stacks of 14 and 15: every user word must report its declared POS strings and split references (U-prefixed and inline) resolved into its own or the system dictionary, morphemes must report the dictionary number of their source (-1 for OOV), system words must be unaffected, a shared key must be found once per dictionary, the 15th dictionary must be rejected.",
+   ref="DESIGN.md §3 C12"),
  "C13": dict(
    technique="explicit-state model checking (stateright): exhaustive bounded enumeration of texts x definition-flag worlds on the real lattice builder, reference = textbook MeCab candidate model with greedy left-to-right class runs",
    text="For every string up to the bound over an alphabet with multi-class characters, combining marks (ALL NOOOVBOW), ZWJ (NOOOVBOW2), emoji modifiers and small kana, in worlds varying invoke/group/length of one class at a time and in six provider orders (MeCab, simple, regex strict/relaxed), the set of OOV nodes at every reachable lattice position, the class runs, the word-start flags and the fields of OOV morphemes are compared with the reference; runs of 62..130 characters cover the created-words bitset.",
@@ -52,6 +56,10 @@ CHECKS = {
    technique="explicit-state model checking (stateright): exhaustive bounded enumeration of strings over the numeral alphabet plus a generated value grid, reference = strict well-formed recogniser and classical evaluator in exact decimal arithmetic",
    text="Every string within the bound over {0 1 2 5 〇 一 三 十 百 千 万 億 兆 , .} alone and embedded in text, with and without the plugin: every well-formed numeral must become exactly one token with the expected rendering; every joined token must have well-formed separators and a normalised form numerically equal to the classical value of its surface. All renderings (Arabic, kanji digits, comma groups, fractions, unit and coefficient notation) of d*10^k+e*10^j up to 10^40.",
    ref="DESIGN.md §3 C15"),
+ "C16": dict(
+   technique="explicit-state model checking (stateright): exhaustive bounded enumeration of texts x window limits x with/without dictionary checker on the real sentence splitter, invariant + converse oracle",
+   text="Every text within the bound over an alphabet of terminators, brackets, quoting particles, digits/letters, <br>, ellipsis dots, commas, dictionary words containing a terminator and an astral character, split with window limits {1,2,3,5,4096} with and without the dictionary-based non-break checker (the lexicon lists the terminator itself): sentences partition the text and equal their slices, iteration terminates, every non-last sentence ends with terminator+tail, bracket level is 0 at each break, no break inside or at the end of a multi-character dictionary word, and every unvetoed terminator inside the window ends a sentence.",
+   ref="DESIGN.md §3 C16"),
  "C17": dict(
    technique="explicit-state model checking (stateright) over definition files built line by line: every file up to the bound is loaded by the real parser and queried on every probe code point, reference = naive union of covering lines; plus all scalars on the shipped files",
    text="Every sequence (all orders, duplicates) of up to 3-4 range lines from a menu of ranges x class sets over a small domain touching 0, and around the surrogate gap and the top of the code space, is loaded with the real CharacterCategory reader; every probe code point (all range ends and neighbours) must report exactly the union of the covering lines or DEFAULT; the three char.def files shipped in the repository are checked on all 1,112,064 scalar values.",
